@@ -109,6 +109,31 @@ def run_one(sid, tier, props=None):
     return res
 
 
+def try_one(sid, tier, props=None):
+    """like run_one but on a scratch worktree handed to the check through VF_REPO: /repo and RESULTS.json are left alone (exploration only;
+    the recorded results always come from run_one on /repo itself)"""
+    d = os.path.join(SEEDED, sid)
+    meta = json.load(open(os.path.join(d, "meta.json")))
+    props = props or [meta["property"]]
+    wt = "/tmp/seedtry_%d" % os.getpid()
+    sh(["git", "-C", REPO, "worktree", "remove", "--force", wt])
+    sh(["git", "-C", REPO, "worktree", "add", "--detach", wt, "HEAD"])
+    res = {}
+    try:
+        r = sh(["git", "-C", wt, "apply", os.path.join(d, "patch.diff")])
+        if r.returncode:
+            return {p: {"rc": None, "first": ["patch does not apply: " + r.stderr[-200:]]} for p in props}
+        for p in props:
+            t0 = time.time()
+            c = sh([os.path.join(VERIF, "check"), p, tier], cwd=VERIF, env=dict(os.environ, VF_REPO=wt))
+            lines = [l for l in c.stdout.splitlines() if l.startswith(("VIOLATION", "INCONCLUSIVE", "OK", "  kind=", "KNOWN"))]
+            kinds = [l.strip()[:260] for l in lines if l.startswith("  kind=")][:2]
+            res[p] = {"rc": c.returncode, "wall": round(time.time() - t0, 1), "tier": tier, "first": kinds or [l[:200] for l in lines[:1]]}
+    finally:
+        sh(["git", "-C", REPO, "worktree", "remove", "--force", wt])
+    return res
+
+
 def load_results():
     p = os.path.join(SEEDED, "RESULTS.json")
     return json.load(open(p)) if os.path.exists(p) else {}
@@ -137,6 +162,13 @@ def main(argv):
                 print("%-14s %-4s %-12s %6.1fs  %s" % (sid, p, status, c.get("wall", 0), (c.get("first") or [""])[0][:170]))
             sys.stdout.flush()
             json.dump(results, open(os.path.join(SEEDED, "RESULTS.json"), "w"), indent=1, sort_keys=True)
+        return 0
+    if argv[0] == "try":
+        tier = argv[2] if len(argv) > 2 and not argv[2].startswith("--") else "quick"
+        props = argv[argv.index("--props") + 1].split(",") if "--props" in argv else None
+        for p, c in try_one(argv[1], tier, props).items():
+            status = {1: "CAUGHT", 0: "MISSED", 2: "INCONCLUSIVE"}.get(c["rc"], "rc=%s" % c["rc"])
+            print("%-14s %-4s %-12s %6.1fs  %s   (scratch worktree)" % (argv[1], p, status, c.get("wall", 0), (c.get("first") or [""])[0][:170]))
         return 0
     if argv[0] == "table":
         for sid, r in sorted(load_results().items()):
